@@ -64,7 +64,7 @@
 #undef setup_udp_socket_address
 #undef setup_socket_address
 
-#define XMAXD 64
+#define XMAXD 2100
 static uint8_t* x_dg[XMAXD]; static size_t x_len[XMAXD]; static int x_nd, x_cur;
 static int x_report = -1;                 /* pipe to the parent */
 static void x_say(const char* fmt, ...)
@@ -160,7 +160,7 @@ static int x_handle(int* m) { use_udp = (uint8_t)m[0]; can_variant = m[1] ? AVTP
 #undef read
 #undef sendto
 #undef clock_gettime
-#elif defined(XH_AAF_TALKER) || defined(XH_CRF_TALKER) || defined(XH_HELLO_TALKER) || defined(XH_VSS_TALKER)
+#elif defined(XH_AAF_TALKER) || defined(XH_CRF_TALKER) || defined(XH_HELLO_TALKER) || defined(XH_VSS_TALKER) || defined(XH_CVF_TALKER)
 #define read x_read_stdin
 #define sendto x_sendto_n
 #define sleep x_sleep
@@ -169,6 +169,8 @@ static int x_handle(int* m) { use_udp = (uint8_t)m[0]; can_variant = m[1] ? AVTP
 #include "aaf/aaf-talker.c"
 #elif defined(XH_CRF_TALKER)
 #include "crf/crf-talker.c"
+#elif defined(XH_CVF_TALKER)
+#include "cvf/cvf-talker.c"
 #elif defined(XH_HELLO_TALKER)
 #include "hello-world/hello-world-talker.c"
 #define XH_CF_TALKER 1
